@@ -13,7 +13,7 @@ use verif_harness::*;
 
 const NAMES: [&str; 5] = ["a", "ab", "a_b", "b", "a_"];
 const CNAMES: [&str; 3] = ["a", "b", "ab"];
-const VALUES: [&str; 7] = ["", "b", "x", "xy", "y", "\u{e9}", "_b"];
+const VALUES: [&str; 9] = ["", "b", "x", "xy", "y", "\u{e9}", "_b", "a", "ab"];
 const VNAMES: [&str; 3] = ["a", "b", "c"];
 const HELPS: [&str; 3] = ["h", "hh", "ha"];
 
@@ -93,7 +93,7 @@ fn main() {
         println!("{}", doc["detail"]);
     }
     let all = specs();
-    rep.rule = format!("all descriptors over names {:?} x help {:?} x constant-label sets (<=2 labels over names {:?}, values {:?}) x variable-label lists (<=2 over {:?}, both orders): each built through Desc::new from a constant-label HashMap in every realised iteration order and through Opts with every insertion order; id must be equal exactly for equal (fq_name, constant values in label-name order), dim_hash exactly for equal (help, constant-name set, variable-name set) — over all pairs, by grouping in both directions; rebuilds of one descriptor must agree; const_label_pairs must come out name-sorted. distinct = distinct (id, dim_hash) pairs", NAMES, HELPS, CNAMES, VALUES, VNAMES);
+    rep.rule = format!("all descriptors over names {:?} x help {:?} x constant-label sets (<=2 labels over names {:?}, values {:?}) x variable-label lists (<=2 over {:?}, both orders): each built through Desc::new from a constant-label HashMap in every realised iteration order and through Opts with every insertion order; id must be equal exactly for equal (fq_name, constant values in label-name order), dim_hash exactly for equal (help, constant-name set, variable-name set) — over all pairs, by grouping in both directions; rebuilds of one descriptor must agree, also when other descriptors are built in between (X, Y, X with 4 strides); const_label_pairs must come out name-sorted. distinct = distinct (id, dim_hash) pairs", NAMES, HELPS, CNAMES, VALUES, VNAMES);
     rep.bounds = json!({"descriptors": all.len(), "const_labels": 2, "variable_labels": 2});
     let mut ids_by_key: BTreeMap<String, BTreeMap<u64, String>> = BTreeMap::new();
     let mut keys_by_id: BTreeMap<u64, BTreeMap<String, String>> = BTreeMap::new();
@@ -160,6 +160,28 @@ fn main() {
             dims_by_key.entry(s.dim_key()).or_default().entry(dim).or_insert_with(|| spec_s.clone());
             keys_by_dim.entry(dim).or_default().entry(s.dim_key()).or_insert_with(|| spec_s.clone());
             rep.outcome(format!("{:x}|{:x}", id, dim));
+        }
+    }
+    // history dependence: rebuilding descriptors in an interleaved order (X, Y, X, Z, Y, ...) on this
+    // thread must give the same identities as the first build
+    let valid: Vec<&Spec> = all.iter().filter(|s| s.valid()).collect();
+    let build = |s: &Spec| {
+        let m: HashMap<String, String> = s.consts.iter().map(|(k, v)| (k.to_string(), v.to_string())).collect();
+        Desc::new(s.name.into(), s.help.into(), s.vars.iter().map(|x| x.to_string()).collect(), m).ok().map(|d| (d.id, d.dim_hash))
+    };
+    let stride = [1usize, 2, 7, 97];
+    for (i, x) in valid.iter().enumerate() {
+        let first = build(x);
+        for st in stride {
+            let y = valid[(i + st) % valid.len()];
+            let _ = build(y);
+            let again = build(x);
+            rep.evaluations += 2;
+            rep.transitions += 2;
+            if again != first {
+                rep.violation("identity-depends-on-earlier-calls", format!("Desc::new({:?}), Desc::new({:?}), Desc::new(first again) gives {:x?} then {:x?}", x, y, first, again), json!({"engine":"enum","a": format!("{:?}", x), "b": format!("{:?}", y), "detail": "X, Y, X on one thread: the second X differs from the first"}));
+                break;
+            }
         }
     }
     let mut pairs_checked = 0u64;
